@@ -109,6 +109,22 @@ def _fp_probes(repo, rep, fp):
                  "TFLite DownScaleInt32ToInt16Multiplier"))
     jobs.append(("multiply_by_quantized_multiplier", ref_mbqm, [(x, sc_, sh_) for x in (0, 1, -1, 5, -5, 127, -128, 255, 32767, -32768, 100000, -100000) for sc_ in (1 << 30, (1 << 30) + 12345, (1 << 31) - 1, 1518500250)
                                                                   for sh_ in (29, 30, 31, 32, 33, 38, 45)], "TFLite MultiplyByQuantizedMultiplier (shift = 31 - Vela shift)"))
+    hm = _ref_high_mul(32, True)
+
+    def ref_exp_interval(a):
+        # gemmlowp exp_on_interval_between_negative_one_quarter_and_0_excl (Q0.31): 4th-order Taylor around -1/8; x^4 is x2 * x2
+        x = a + (1 << 28)
+        x2 = hm(x, x)
+        x3 = hm(x2, x)
+        x4 = hm(x2, x2)
+        t = _ref_rdbp(hm(_ref_rdbp(x4, 2) + x3, 715827883) + x2, 1)
+        return 1895147668 + hm(1895147668, x + t)
+
+    # probes include arguments on which the roundings of (x2 * x2) and (x3 * x), or of a re-associated sum, differ by one unit
+    jobs.append(("exp_on_interval_between_negative_one_quarter_and_0_excl", ref_exp_interval,
+                 [(a,) for a in (-1, -2, -12345, -(1 << 27), -(1 << 28), -(1 << 29), -(1 << 29) + 1, -34050191, -22616740, -144015519, -48255378, -130797905, -525504358, -403273034, -13078251,
+                                 -484961891, -163848456, -481377436, -348693374, -3586550, -100000000, -268435455, -268435457)],
+                 "gemmlowp exp_on_interval_between_negative_one_quarter_and_0_excl"))
     for fn, ref, probes, what in jobs:
         wrong = []
         for args in probes:
@@ -434,6 +450,8 @@ def run(repo, rep):
     rep.run_borrowed(_c11, {"C11-i": "C19-k"}, repo, only_sites=("lut.py", "tflite_graph_optimiser"))
     rep.run_borrowed(_c11, {"C11-s": "C19-k"}, repo)
     rep.clause("C19-l", "the scale helpers behind the tables are evaluated on every call: no memo decorator makes the float width of the first caller decide later results [rule shared with C09-g]")
+    rep.clause("C19-m", "tables and constants reach the memory image as their bytes: the modules that build the image reinterpret multi-byte values (tobytes / frombuffer / view), they never convert values to a byte type")
+    rule_byte_image(repo, rep)
     rep.run_borrowed(c09, {"C09-g": "C19-l"}, repo, only_sites=("scaling.py",))
     rule_table_generators_in_double(repo, rep)
 
@@ -667,3 +685,32 @@ def rule_round7(repo, rep):
         narrowed = [c for c in ast.walk(a.value) if isinstance(c, ast.Call) and call_name(c) in ("int", "float", "bool") or (isinstance(c, ast.Call) and isinstance(c.func, ast.Attribute) and c.func.attr in ("item", "tolist"))]
         rep.check(not narrowed, "C19-j", "ethosu/vela/tflite_reader.py:TFLiteSubgraph.parse_tensor", f"`{str(norm(a))[:80]}` keeps the file's numpy integer",
                   "the zero point becomes a Python int: `np.int8(value) - zero_point` in optimise_quantize stays int8 under NumPy >= 2 and wraps for |value - zp| > 127: folded QUANTIZE constants are wrong")
+
+
+def rule_byte_image(repo, rep):
+    """(m) npu_serialisation / tflite_writer copy `Tensor.values` into uint8 memory images. For a 256 x 32-bit LUT the image is the 1024
+    bytes of the values; `values.astype(np.uint8)` is a *value* conversion (256 truncated low bytes). Rule with expected count zero: no
+    `.astype(<8-bit type>)` in these modules; the matcher is exercised on a positive example on every run."""
+    byte_types = {"uint8", "int8", "ubyte", "byte", "bool_"}
+
+    def hits(tree):
+        out = []
+        for c in ast.walk(tree):
+            if isinstance(c, ast.Call) and isinstance(c.func, ast.Attribute) and c.func.attr == "astype" and c.args:
+                a = c.args[0]
+                nm = a.attr if isinstance(a, ast.Attribute) else (a.id if isinstance(a, ast.Name) else (a.value if isinstance(a, ast.Constant) and isinstance(a.value, str) else None))
+                if nm in byte_types or nm in ("B", "b", "u1", "i1"):
+                    out.append(c)
+        return out
+
+    if len(hits(ast.parse("v = v.astype(np.uint8)\nw = w.astype('uint8')\nx = x.astype(np.int32)"))) != 2:
+        raise AnalysisError("C19-m: the matcher does not find its positive examples")
+    n = 0
+    for mname in ("npu_serialisation", "tflite_writer"):
+        m = repo.mod(mname)
+        for q, fn in m.functions.items():
+            n += 1
+            for c in hits(fn):
+                rep.bad("C19-m", f"ethosu/vela/{mname}.py:{q}", "values are reinterpreted as bytes, not converted",
+                        f"`{norm(c)}`: a value conversion to a byte type: a 256-entry 32-bit table (softmax exp LUT) or an int16 constant is written to flash as truncated low bytes followed by stale data")
+    rep.ok("C19-m", "ethosu/vela/npu_serialisation.py, tflite_writer.py", f"{n} functions scanned", "no value conversion to an 8-bit type (matcher checked on positive examples)")
